@@ -57,11 +57,17 @@ func (l *refreshLoader) Load(_ context.Context, k int) (int, error) {
 func (l *refreshLoader) Reload(_ context.Context, k int, old int) (int, error) {
 	l.enter()
 	defer l.active.Add(-1)
-	if l.reloads.Add(1) == 1 {
+	idx := l.reloads.Add(1)
+	if idx == 1 {
 		l.oldSeen.Store(int64(old))
 		close(l.entered)
 	}
 	<-l.gate
+	if idx > 1 {
+		// a reload task queued by an earlier stale read that runs after the first reload has finished (or was superseded):
+		// it succeeds with a value of its own, so that the judge can tell whose result the cache holds
+		return l.newVal + 100*int(idx-1), nil
+	}
 	switch l.outcome {
 	case "ok":
 		return l.newVal, nil
@@ -207,6 +213,17 @@ func concRefresh(args []string, out *bufio.Writer) {
 			if started {
 				crowd(2 + r.intn(6)) // while the reload is in flight
 			}
+			// in a third of the rounds the key is written while the reload is in flight: whatever the reload's outcome, the
+			// write stays (C09: not replaced by the reloaded value, not removed by a not-found, not touched by a failure)
+			superseded := -1
+			if started && r.chance(0.33) {
+				superseded = v0 + 7
+				if r.chance(0.5) {
+					c.Set(k, superseded)
+				} else {
+					c.Compute(k, func(int, bool) (int, otter.ComputeOp) { return superseded, otter.WriteOp })
+				}
+			}
 			close(ld.gate)
 			// wait for the reload to be finished and applied: no call left in flight
 			settled := false
@@ -269,8 +286,8 @@ func concRefresh(args []string, out *bufio.Writer) {
 				afterTok = fmt.Sprint(after.Value)
 			}
 			expSame := present && after.ExpiresAtNano == before.ExpiresAtNano
-			fmt.Fprintf(out, "rround key=%d old=%d outcome=%s new=%d explicit=%v started=%v settled=%v readsold=%d readsother=%d sample=%d loads=%d reloads=%d overlap=%d reloadsaw=%d after=%s expsame=%v results=%d chan=%s expiry=%v\n",
-				k, v0, ld.outcome, ld.newVal, explicit, started, settled, readsOld.Load(), readsOther.Load(), otherSample.Load(), ld.loads.Load(), ld.reloads.Load(), ld.maxActive.Load(), ld.oldSeen.Load(), afterTok, expSame, results, chanErr, withExpiry)
+			fmt.Fprintf(out, "rround key=%d old=%d outcome=%s new=%d explicit=%v started=%v settled=%v readsold=%d readsother=%d sample=%d loads=%d reloads=%d overlap=%d reloadsaw=%d after=%s expsame=%v results=%d chan=%s expiry=%v superseded=%d\n",
+				k, v0, ld.outcome, ld.newVal, explicit, started, settled, readsOld.Load(), readsOther.Load(), otherSample.Load(), ld.loads.Load(), ld.reloads.Load(), ld.maxActive.Load(), ld.oldSeen.Load(), afterTok, expSame, results, chanErr, withExpiry, superseded)
 			if !started || !settled {
 				break
 			}
